@@ -312,6 +312,8 @@ class Executor:
         self.solver = z3.SolverFor("QF_BV") if opts.get("qfbv", True) else z3.Solver()
         self.solver.set("timeout", opts.get("branch_timeout_ms", 20000))
         self.model = None
+        self.seed_model = None
+        self.known = {}
         self.pc = []
         self.prefix = []
         self.trace = []
@@ -357,6 +359,14 @@ class Executor:
             return
         self.pc.append(c)
         self.solver.add(c)
+        self.note_fact(c, True)
+
+    def note_fact(self, c, val):
+        """remember that the path condition implies c == val (syntactic cache keyed by AST id)"""
+        self.known[c.get_id()] = (c, val)
+        if z3.is_not(c):
+            a = c.arg(0)
+            self.known[a.get_id()] = (a, not val)
 
     def choose(self, conds, exhaustive=False, tag=None):
         pos = len(self.trace)
@@ -364,6 +374,8 @@ class Executor:
             k = self.prefix[pos]
             self.trace.append(k)
             self.add_pc(conds[k])
+            if pos + 1 == len(self.prefix):
+                self.model = self.seed_model
             return k
         feas = []
         models = {}
@@ -384,12 +396,14 @@ class Executor:
             elif self.check(c) != z3.unsat:
                 feas.append(k)
                 models[k] = self.last_model
+            else:
+                self.note_fact(c, False)
         if not feas:
             raise PathEnd("infeasible")
         k = feas[0]
         self.model = models.get(k)
         for alt in feas[1:]:
-            self.newwork.append(self.trace + [alt])
+            self.newwork.append((self.trace + [alt], models.get(alt)))
         self.trace.append(k)
         self.add_pc(conds[k])
         return k
@@ -401,7 +415,15 @@ class Executor:
         cond = simp(cond)
         if isinstance(cond, bool):
             return cond
-        return self.choose([cond, z3.Not(cond)], exhaustive=True) == 0
+        if len(self.trace) >= len(self.prefix):
+            kn = self.known.get(cond.get_id())
+            if kn is not None:
+                self.stats.cache_hits += 1
+                self.trace.append(0 if kn[1] else 1)
+                return kn[1]
+        nc = z3.Not(cond)
+        r = self.choose([cond, nc], exhaustive=True) == 0
+        return r
 
     def concretize(self, v, lo, hi, bits=64):
         """fork on every feasible value of v in [lo,hi] (unsigned); values outside are not considered.
@@ -417,13 +439,17 @@ class Executor:
             val = self.prefix[pos]
             self.trace.append(val)
             self.add_pc(v == z3.BitVecVal(val, w))
+            if pos + 1 == len(self.prefix):
+                self.model = self.seed_model
             return val
         vals = []
+        vmodels = {}
         m = self.model
         if m is not None:
             mv = m.eval(v, model_completion=True).as_long()
             if lo <= mv <= hi:
                 vals.append(mv)
+                vmodels[mv] = m
         self.solver.push()
         self.solver.add(z3.ULE(z3.BitVecVal(lo, w), v), z3.ULE(v, z3.BitVecVal(hi, w)))
         for x in vals:
@@ -438,6 +464,7 @@ class Executor:
                     break
                 x = self.last_model.eval(v, model_completion=True).as_long()
                 vals.append(x)
+                vmodels[x] = self.last_model
                 if len(vals) > limit:
                     raise PathEnd("unwind", "more than %d feasible values for a size/index at %s" % (limit, self.where()))
                 self.solver.add(v != z3.BitVecVal(x, w))
@@ -447,11 +474,11 @@ class Executor:
             raise PathEnd("infeasible")
         vals.sort()
         for alt in vals[1:]:
-            self.newwork.append(self.trace + [alt])
+            self.newwork.append((self.trace + [alt], vmodels.get(alt)))
         val = vals[0]
         self.trace.append(val)
         self.add_pc(v == z3.BitVecVal(val, w))
-        self.model = None
+        self.model = vmodels.get(val)
         return val
 
     def assume(self, c):
@@ -600,6 +627,8 @@ class Executor:
                 bits = None
                 if tid is not None and self.types[tid]["kind"] == "int":
                     bits = self.types[tid]["bits"]
+                elif not isinstance(v, bool) and not (is_sym(v) and z3.is_bool(v)):
+                    raise Unsupported("store through symbolic index without element type")
                 for i in range(n):
                     cont[i] = ite(idx == i, v, cont[i], bits)
                 return
@@ -1671,7 +1700,7 @@ def op_slice2arrptr(ex, g, fr, i):
 def op_store(ex, g, fr, i):
     p = ex.val(fr, i["addr"])
     v = ex.val(fr, i["val"])
-    ex.store(p, v)
+    ex.store(p, v, i.get("vt"))
 
 
 def implements(ex, tid, itid):
